@@ -270,7 +270,7 @@ func readStream(rd io.Reader, salt uint64, r *rand.Rand, sr *streamReader, maxCh
 			pos += uint64(got)
 			sr.total.Store(pos)
 		}
-		if err != nil {
+		if err != nil && (got == 0 || err == io.EOF) {
 			sr.err = err
 			return
 		}
